@@ -1,4 +1,8 @@
 import BiotiteModel.Proofs.C06
+import BiotiteModel.Proofs.C06Table
+import BiotiteModel.Proofs.C06TableLooped
+import BiotiteModel.Proofs.C06TableSingle
+import BiotiteModel.Proofs.C06Multiline
 import BiotiteModel.Proofs.C06Containers
 import BiotiteModel.Gen.C06
 /-!
@@ -19,19 +23,6 @@ theorem C06_token (v : Str) (hs : SingleLine v) (hb : ¬ BothQuotes v) :
   have hrel : RowRel [v] [(escape v, 0)] := RowRel.cons htok RowRel.nil
   have := splitOneLine_padded [v] [(escape v, 0)] hrel (by simp) (by simpa [padded] using hsafe.semi)
   simpa [padded] using this
-
-theorem rowRel_escape (row : List Str) (toks : List (Str × Nat)) (hm : toks.map (·.1) = row.map escape)
-    (h : ∀ v ∈ row, SingleLine v ∧ ¬ BothQuotes v) : RowRel row toks := by
-  induction row generalizing toks with
-  | nil => cases toks <;> simp_all [RowRel.nil]
-  | cons v vs ih =>
-    cases toks with
-    | nil => simp at hm
-    | cons tn rest =>
-      simp only [List.map_cons, List.cons.injEq] at hm
-      have hv := h v (by simp)
-      refine RowRel.cons ?_ (ih rest hm.2 (fun x hx => h x (by simp [hx])))
-      rw [hm.1]; exact (escape_tok v hv.1 hv.2).1
 
 /-- **Row, any padding.**  A row of such values, each written by `_escape` and followed by one or
 more blanks (none after the last), is split back into exactly the row — wherever the awkward
@@ -62,69 +53,75 @@ theorem C06_row (row : List Str) (pads : List Nat) (hne : row ≠ []) (hlen : pa
       rw [padded_head? _ _ _ (tok_ne_nil _ _ hs.1)]
       exact hs.2.semi
 
-theorem length_le_maxLen (xs : List Str) (x : Str) (hx : x ∈ xs) : x.length ≤ maxLen xs := by
-  unfold maxLen
-  have gen : ∀ (ys : List Str) (m : Nat), m ≤ ys.foldl (fun m x => max m x.length) m ∧
-      ∀ y ∈ ys, y.length ≤ ys.foldl (fun m x => max m x.length) m := by
-    intro ys
-    induction ys with
-    | nil => intro m; simp
-    | cons y ys ih =>
-      intro m
-      have h1 := ih (max m y.length)
-      refine ⟨by simp only [List.foldl_cons]; omega, ?_⟩
-      intro z hz
-      simp only [List.foldl_cons]
-      rcases List.mem_cons.mp hz with e | e
-      · subst e; omega
-      · exact h1.2 z e
-  exact (gen xs 0).2 x hx
-
 /-- The column width the writer uses (`itemsize + 1` = longest escaped element + 1) leaves at
 least one blank after every element of the column. -/
 theorem C06_width_sufficient (col : List Str) (v : Str) (hv : v ∈ col) :
-    (escape v).length < maxLen (col.map escape) + 1 := by
-  have := length_le_maxLen (col.map escape) (escape v) (List.mem_map_of_mem hv)
-  omega
+    (escape v).length < maxLen (col.map escape) + 1 := width_sufficient col v hv
 
 /-- **Row as written.**  One value line of `_serialize_looped` (`ljust` to the column widths,
 `strip`), stripped again by the reader and tokenised, is the row. -/
 theorem C06_row_written (row : List Str) (ws : List Nat) (hne : row ≠ []) (hlen : ws.length = row.length)
     (hw : ∀ p ∈ ws.zip (row.map escape), p.2.length < p.1)
     (h : ∀ v ∈ row, SingleLine v ∧ ¬ BothQuotes v) :
-    splitOneLine (strip (rowLine ws (row.map escape))) = .ok row := by
-  have hlen' : ws.length = (row.map escape).length := by simp [hlen]
-  have hne' : row.map escape ≠ [] := by simpa using hne
-  have hm := padsOf_map_fst ws (row.map escape) hlen'
-  have hrel := rowRel_escape row _ hm h
-  have hpn := padsOf_ne_nil ws (row.map escape) hlen' hne'
-  rw [rowLine_padded row ws _ hlen' hrel hne' hw, strip_padded _ hpn (rowRel_edges _ _ hrel)]
-  refine splitOneLine_padded row _ hrel hpn ?_
-  cases row with
-  | nil => exact absurd rfl hne
-  | cons v vs =>
-    cases ws with
-    | nil => simp at hlen
-    | cons w ws' =>
-      have hv := h v (by simp)
-      have hs := (escape_tok v hv.1 hv.2)
-      simp only [List.map_cons, padsOf]
-      rw [padded_head? _ _ _ (tok_ne_nil _ _ hs.1)]
-      exact hs.2.semi
+    splitOneLine (strip (rowLine ws (row.map escape))) = .ok row := row_written row ws hne hlen hw h
 
 /-- **All value lines of a looped category**: tokenising the written lines one by one gives back
 the rows, in order. -/
 theorem C06_looped_lines (rows : List (List Str)) (ws : List Nat)
     (hrow : ∀ row ∈ rows, row ≠ [] ∧ ws.length = row.length ∧
       (∀ p ∈ ws.zip (row.map escape), p.2.length < p.1) ∧ ∀ v ∈ row, SingleLine v ∧ ¬ BothQuotes v) :
-    mapM' splitOneLine ((rows.map (fun r => rowLine ws (r.map escape))).map strip) = .ok rows := by
-  induction rows with
-  | nil => rfl
-  | cons r rs ih =>
-    obtain ⟨h1, h2, h3, h4⟩ := hrow r (by simp)
-    have := C06_row_written r ws h1 h2 h3 h4
-    have ih' := ih (fun x hx => hrow x (by simp [hx]))
-    simp only [List.map_cons, mapM', this, ih', bind, Except.bind]
+    mapM' splitOneLine ((rows.map (fun r => rowLine ws (r.map escape))).map strip) = .ok rows :=
+  looped_lines rows ws hrow
+
+/-! ## Whole categories: `deserialize (serialize t) = t` -/
+
+/-- **Looped category.**  Any rectangular table (k ≥ 1 columns with distinct names, r ≥ 2 rows) of
+single-line values — blanks, tabs, either quote character, any special first character or
+reserved word, empty strings, `.`/`?` — written by `CIFCategory.serialize` and read by
+`CIFCategory.deserialize` comes back with the same name, columns, order and values. -/
+theorem C06_table_looped (name : Str) (cols : List (Str × List Str)) (r : Nat)
+    (hname : NameOk name) (hkeys : ∀ kv ∈ cols, NameOk kv.1) (hnodup : (cols.map (·.1)).Nodup)
+    (hcols : cols ≠ []) (hr : 2 ≤ r) (hrect : ∀ kv ∈ cols, kv.2.length = r)
+    (hvals : ∀ kv ∈ cols, ∀ v ∈ kv.2, SingleLine v ∧ ¬ BothQuotes v) :
+    ∃ text, categorySerialize name cols = .ok text ∧ categoryDeserialize text = .ok (name, cols) :=
+  table_looped name cols r hname hkeys hnodup hcols hr hrect hvals
+
+/-- **Single-row category** (`_name.key   value` lines). -/
+theorem C06_table_single (name : Str) (kvs : List (Str × Str))
+    (hname : NameOk name) (hkeys : ∀ kv ∈ kvs, NameOk kv.1) (hnodup : (kvs.map (·.1)).Nodup)
+    (hne : kvs ≠ []) (hvals : ∀ kv ∈ kvs, SingleLine kv.2 ∧ ¬ BothQuotes kv.2) :
+    ∃ text, categorySerialize name (kvs.map (fun kv => (kv.1, [kv.2]))) = .ok text ∧
+      categoryDeserialize text = .ok (name, kvs.map (fun kv => (kv.1, [kv.2]))) :=
+  table_single name kvs hname hkeys hnodup hne hvals
+
+/-- A table of cells (PRESENT value / INAPPLICABLE / MISSING): its rendering is a table of
+single-line strings to which the two theorems above apply, and inferring the masks of the
+strings read back gives the cells again. -/
+theorem C06_table_masks (ccols : List (Str × List Cell))
+    (hp : ∀ kv ∈ ccols, ∀ c ∈ kv.2, ∀ v, c = .present v → v ≠ sDot ∧ v ≠ sQm ∧ SingleLine v ∧ ¬ BothQuotes v) :
+    (∀ kv ∈ ccols, ∀ c ∈ kv.2, SingleLine c.render ∧ ¬ BothQuotes c.render) ∧
+    (ccols.map (fun kv => (kv.1, kv.2.map Cell.render))).map (fun kv => (kv.1, kv.2.map Cell.infer)) = ccols := by
+  constructor
+  · intro kv hkv c hc
+    cases c with
+    | present v => exact (hp kv hkv _ hc v rfl).2.2
+    | inapplicable => exact ⟨by unfold SingleLine; decide, by unfold BothQuotes; decide⟩
+    | missing => exact ⟨by unfold SingleLine; decide, by unfold BothQuotes; decide⟩
+  · rw [List.map_map]
+    conv => rhs; rw [← List.map_id ccols]
+    apply List.map_congr_left
+    intro kv hkv
+    simp only [Function.comp_def, List.map_map, id]
+    congr 1
+    conv => rhs; rw [← List.map_id kv.2]
+    apply List.map_congr_left
+    intro c hc
+    cases c with
+    | present v =>
+      have := hp kv hkv _ hc v rfl
+      simp [Cell.render, Cell.infer, this.1, this.2.1]
+    | inapplicable => decide
+    | missing => decide
 
 /-! ## The reader's line-start tests against the writer's quoting (regenerated tables) -/
 
@@ -207,6 +204,64 @@ theorem C06_get_parses {κ ρ ν : Type} [BEq κ] [LawfulBEq κ] (kind : Kind) (
       simp only [lookup, hk', Bool.false_eq_true, if_false] at h
       simp [dictSet, lookup, hk', ih h]
 
+/-- **Equality refines too**: `a == b` on two lazily parsed containers gives the answer (or the
+error) of the element-wise comparison of the plain mappings, and leaves both unchanged in meaning. -/
+theorem C06_container_eq_refines {κ ρ ν : Type} [BEq κ] [LawfulBEq κ] [BEq ν] (parse : ρ → Option ν)
+    (a b : Store κ ρ ν) :
+    absStore parse (eqContainers parse a b).1 = absStore parse a ∧
+    absStore parse (eqContainers parse a b).2.1 = absStore parse b ∧
+    (eqContainers parse a b).2.2 = specEq (absStore parse a) (absStore parse b) :=
+  eq_refines parse a b
+
+/-- **The cached row count is never stale** (after the two `fix:` commits): for every history of
+set / delete / serialise / `row_count` on a category, started with an empty cache, every output is
+what the *current* columns alone determine (`rcSpecRun` has no cache). -/
+theorem C06_rowcount_not_stale {κ : Type} [BEq κ] (binary : Bool) (cols : List (κ × Nat)) (ops : List (RCOp κ)) :
+    rcSpecRun binary cols ops =
+      ((rcRun binary ⟨cols, none⟩ ops).1.cols, (rcRun binary ⟨cols, none⟩ ops).2) :=
+  rcRun_refines binary ops ⟨cols, none⟩ (Or.inl rfl)
+
+/-! ## Multi-line values (partial) -/
+
+/-- **Multi-line values, and single-line values with both quote characters, under explicit line
+hypotheses.**  Let the value consist of the lines `l0, l1, …` (joined by line breaks).  If
+* no line contains a line break (they are the lines),
+* the first line does not end with a blank (it may be empty and may start with anything),
+* every later line is non-empty, neither starts nor ends with a blank, and does not start with `#` or `;`,
+then the `;`-delimited text written by `_escape` is read back (lines → drop empty/comment lines →
+strip → `_to_single` → tokenise: `readTokens`) as exactly that value.
+Each excluded case loses data (`…_defect` theorems below).  This is the category-level pipeline;
+inside a block/file the later lines must in addition not start with `_`, `loop_` or `data_`
+(those are cut by `CIFBlock/CIFFile.deserialize`; known findings, exercised by the oracle only). -/
+theorem C06_multiline_partial (l0 : Str) (ls : List Str) (hml : ls ≠ [] ∨ BothQuotes l0)
+    (h0nl : '\n' ∉ l0) (h0 : l0 = [] ∨ ∃ s c, l0 = s ++ [c] ∧ isWs c = false)
+    (hls : ∀ l ∈ ls, KeptLine l) :
+    readTokens (escape (joinNl (l0 :: ls))) = .ok [joinNl (l0 :: ls)] := by
+  have hesc : escape (joinNl (l0 :: ls)) = multiline (joinNl (l0 :: ls)) := by
+    by_cases hnl : has '\n' (joinNl (l0 :: ls)) = true
+    · simp [escape, hnl]
+    · have hbq : BothQuotes (joinNl (l0 :: ls)) := by
+        cases ls with
+        | nil =>
+          rcases hml with h | h
+          · exact absurd rfl h
+          · simpa [joinNl] using h
+        | cons l1 ls' =>
+          exfalso
+          apply hnl
+          simp [has_iff, joinNl]
+      have : (has q1 (joinNl (l0 :: ls)) && has q2 (joinNl (l0 :: ls))) = true := by
+        simp only [Bool.and_eq_true, has_iff]; exact hbq
+      simp [escape, hnl, this]
+  rw [hesc]
+  exact multiline_tokens l0 ls h0nl h0 hls
+
+/-- Special case: a single-line value with both quote characters that does not end with a blank. -/
+theorem C06_both_quotes_partial (v : Str) (hs : SingleLine v) (hb : BothQuotes v)
+    (hlast : ∃ s c, v = s ++ [c] ∧ isWs c = false) : readTokens (escape v) = .ok [v] := by
+  have := C06_multiline_partial v [] (Or.inr hb) (singleLine_no_nl v hs) (Or.inr hlast) (by simp)
+  simpa [joinNl] using this
+
 /-! ## Multi-line values: what the current reader loses (known findings; witnesses replayed on the code) -/
 
 def str (s : String) : Str := s.toList
@@ -249,6 +304,13 @@ example : splitOneLine (str "'#x'   \"_a' b\" data 'data_1' ''") =
 example : rt2 ['#', 'x'] = .ok (['c'], [(['k'], [['#', 'x'], ['p']])]) := by decide
 example : rt2 ['x', '\n', 'y'] = .ok (['c'], [(['k'], [['x', '\n', 'y'], ['p']])]) := by decide
 example : rt2 ['a', q1, q2, 'b'] = .ok (['c'], [(['k'], [['a', q1, q2, 'b'], ['p']])]) := by decide
+example : KeptLine ['i', 't', q1, 's', ' ', q2, '#', '2'] := by
+  refine ⟨⟨⟨'i', _, rfl, by decide⟩, ⟨['i', 't', q1, 's', ' ', q2, '#'], '2', rfl, by decide⟩⟩,
+    by decide, by decide, by decide⟩
+example : readTokens (escape (str "a\nb c\n$x")) = .ok [str "a\nb c\n$x"] := by decide
+example : (rcRun (κ := Nat) false ⟨[(0, 2)], none⟩ [.ser, .set 0 3, .ser, .count]).2 =
+    [.ok (some 2), .ok none, .ok (some 3), .ok (some 3)] := by decide
+example : NameOk (str "atom_site") := by unfold NameOk; decide
 example : (run (κ := Nat) (ρ := Nat) (ν := Nat) ⟨false, true⟩ (fun r => if r = 0 then none else some r)
     [(1, .raw 5), (2, .raw 0)] [.get 1, .get 2, .del 1, .iter, .get 1]).2 =
     [.val 5, .err derr, .unit, .keys [2], .err .keyError] := by decide
